@@ -106,22 +106,34 @@ func isHex(s string) bool {
 	return true
 }
 
+// spare: what lies behind every input handed to the load functions (continuation byte of a two-byte identifier,
+// then something every codec accepts a prefix of): a read beyond len(input) changes the observable result.
+var spare = []byte{0x01, '{', '}', '\n', 0x01, 0xf6, 0xc0, 'n', 'u', 'l', 'l', '\n', 0x1f, 0x8b, 0x08, 0, 0, 0, 0, 0, 0x4a, '{', '}', 0x01}
+
+// window copies b into an array with spare capacity filled with plausible bytes.
+func window(b []byte) []byte {
+	buf := make([]byte, len(b)+len(spare))
+	copy(buf, b)
+	copy(buf[len(b):], spare)
+	return buf[:len(b):len(buf)]
+}
+
 func (e *exec) operand(w string) ([]byte, bool) {
 	switch w {
 	case "@":
-		return e.blob, true
+		return window(e.blob), true
 	case "@1":
 		if len(e.blob) == 0 {
-			return []byte{}, true
+			return window(nil), true
 		}
-		return e.blob[1:], true
+		return window(e.blob[1:]), true
 	case "@m":
-		return e.mdata, true
+		return window(e.mdata), true
 	}
 	if !isHex(w) {
 		return nil, false
 	}
-	return hxlib.UnHex(w), true
+	return window(hxlib.UnHex(w)), true
 }
 
 func (e *exec) strOperand(w string) (string, bool) {
